@@ -79,6 +79,55 @@ def correspondence(ctx):
         raw_extra = dict(raw_sasl_alloc_evaluations=rc.get("evaluations", 0), raw_sasl_worst=rc.get("worst"))
     except (ModuleNotFoundError, AttributeError):
         notes.append("checks/c18.py has no raw_sasl_alloc_cases yet")
+    # above ReadResponse: kafka.Client's post-processing of decoded responses (indexing into
+    # arrays, nested consumer-protocol blobs).  harness/cmd/c20cl: every Client method by
+    # reflection, one count / length of one response mutated per call; a mutation that turns a
+    # returning call into a panic is a violation (implementation-side predicate; not modelled).
+    cl_extra = {}
+    try:
+        gobin = L.go_build("c20cl")
+        rc, out, err, dt = L.sh([gobin, "-seed", str(ctx.seed), "-rounds", str(ctx.scale(2, 12))], timeout=1500)
+        if rc != 0:
+            failures.append(dict(layer="correspondence", what="harness cmd/c20cl failed", detail=(out[-800:] + err[-1500:]), input=None))
+        else:
+            n_cl, n_mut, base_panics, seen_keys = 0, 0, [], set()
+            for line in out.splitlines():
+                parts = [x.strip() for x in line.split(" | ")]
+                if len(parts) < 3:
+                    continue
+                f = parts[0].split(" ")
+                if len(f) < 6 or f[1] != "clcount":
+                    continue
+                method, api, site, mut = f[2], f[3], f[4], f[5]
+                res = parts[1]
+                n_cl += 1
+                for ft in parts[2].split(","):
+                    if ft.split("=")[0] in ("array", "bytes", "mutation", "base"):
+                        hist["client:" + ft] = hist.get("client:" + ft, 0) + 1
+                hist["client:outcome=" + res.split(":")[0]] = hist.get("client:outcome=" + res.split(":")[0], 0) + 1
+                if mut == "base":
+                    if res.startswith("panic") or res == "hang":
+                        base_panics.append(f"{method}: {res}")
+                    continue
+                n_mut += 1
+                if res.startswith("panic") or res == "hang":
+                    key = "client-count-panic:%s:%s:%s" % (method, api, site)
+                    if key in seen_keys:
+                        continue
+                    seen_keys.add(key)
+                    failures.append(dict(layer="property", key=None,
+                                         what=f"kafka.Client.{method} {'panicked' if res.startswith('panic') else 'hung'} on a response (api key {api}) whose only defect is a count / length taken from the wire: {site} made {mut} ({res[:160]})",
+                                         detail=line[:600],
+                                         input=dict(case=parts[0], go=res, seed=ctx.seed,
+                                                    replay="build/bin/c20cl -seed %d -rounds %d -only %s" % (ctx.seed, ctx.scale(2, 12), method))))
+            ev += n_cl
+            dn += n_mut
+            cl_extra = dict(client_layer_calls=n_cl, client_layer_mutations=n_mut,
+                            client_layer_base_panics=sorted(set(base_panics)))
+            if base_panics:
+                notes.append("observation (outside the fields C20 lists): kafka.Client methods that panic on a response inconsistent with the request (e.g. naming a partition that was not asked): " + "; ".join(sorted(set(base_panics)))[:400])
+    except L.Fail as f:
+        failures.append(dict(layer="correspondence", what="harness cmd/c20cl could not be built", detail=str(getattr(f, "detail", ""))[-1500:], input=None))
     return dict(evaluations=ev, distinct_nontrivial=dn, hist=hist, notes=notes,
                 rule="for every response schema without record sets: well-formed frames from the real encoder, then ONE length/count field at a time "
                      "(located by the independent layout encoder) replaced by each of {-1, 0, 1, rest, rest+1, max, min} (int16/int32), "
@@ -86,9 +135,10 @@ def correspondence(ctx):
                      "the frame size in {-1,0,3,len-5,len-3,2^31-1,-2^31}; plus frame-size AND count both huge; plus fetch responses with real v1/v2 record sets "
                      "mutated at every offset of the record-set region (32-bit values and single bytes) and cut; each decoded by the real ReadResponse in a child under ulimit -v; "
                      "non-trivial = any mutation; distinct by frame bytes.  Plus the raw SASL authentication response through the Transport (announced lengths exact / one more / 10^4..2^31-1 / negative "
-                     "x payload sent x close|silence): no panic, no out-of-memory, TotalAlloc <= 1 MiB + 4 x bytes received",
+                     "x payload sent x close|silence): no panic, no out-of-memory, TotalAlloc <= 1 MiB + 4 x bytes received.  Plus the Client layer (harness/cmd/c20cl): every exported method of kafka.Client, "
+                     "arguments and base responses by reflection, then one array count (nil / empty / first element) or one bytes length (nil / empty / short prefixes) of one response mutated per call",
                 samples=[c["line"][:200] + " | " + c["go"][:60] + " | " + c["feats"] for c in cases[:3] + cases[len(cases)//2:len(cases)//2+3]],
-                failures=failures, extra=dict(outcome_classes=dict(classes), child_restarts=restarts, residual_declared_size_cases=residual, **raw_extra))
+                failures=failures, extra=dict(outcome_classes=dict(classes), child_restarts=restarts, residual_declared_size_cases=residual, **raw_extra, **cl_extra))
 
 
 def search(ctx, violations):
